@@ -57,6 +57,13 @@ class Qasm2Module(QasmModule):
             stmt_type = type(stmt)
             if stmt_type not in self._whitelist_statements:
                 raise ValidationError(f"Statement of type {stmt_type} not supported in QASM 2.0")
+            # the only classical declaration of OpenQASM 2 is the classical register (creg)
+            if isinstance(stmt, qasm3_ast.ClassicalDeclaration) and not isinstance(
+                stmt.type, qasm3_ast.BitType
+            ):
+                raise ValidationError(
+                    f"Declaration of type {type(stmt.type)} not supported in QASM 2.0"
+                )
             # TODO: add more filtering here if needed
 
     def _format_declarations(self, qasm_str):
